@@ -306,7 +306,13 @@ XMLByte* Base64::decodeToXMLByte(const XMLCh*         const   inputData
     ArrayJanitor<XMLByte> janFill(dataInByte, memMgr ? memMgr : XMLPlatformUtils::fgMemoryManager);
 
     for (XMLSize_t i = 0; i < srcLen; i++)
+    {
+        // no character of the base64 alphabet (or white space) is above
+        // 0x7F; don't let a wider character be truncated into one
+        if (inputData[i] > 0x7F)
+            return 0;
         dataInByte[i] = (XMLByte)inputData[i];
+    }
 
     dataInByte[srcLen] = 0;
 
@@ -342,7 +348,13 @@ XMLCh* Base64::getCanonicalRepresentation(const XMLCh*         const   inputData
     ArrayJanitor<XMLByte> janFill(dataInByte, memMgr ? memMgr : XMLPlatformUtils::fgMemoryManager);
 
     for (XMLSize_t i = 0; i < srcLen; i++)
+    {
+        // no character of the base64 alphabet (or white space) is above
+        // 0x7F; don't let a wider character be truncated into one
+        if (inputData[i] > 0x7F)
+            return 0;
         dataInByte[i] = (XMLByte)inputData[i];
+    }
 
     dataInByte[srcLen] = 0;
 
